@@ -179,6 +179,8 @@ type End struct {
 	accepted  bool
 	firstRead bool
 	ReadCalls int
+	// FailedWrites counts the Write calls on this end that wrote nothing because the peer was gone or the end closed.
+	FailedWrites int
 	// ParkEveryRead makes every Read a park point (default: only when nothing is readable).
 	ParkEveryRead bool
 	TaskName      string
@@ -259,7 +261,8 @@ func (e *End) Read(p []byte) (int, error) {
 		n.S.Logf(e.key(), "read -> closed")
 		return 0, opErr("read", net.ErrClosed)
 	}
-	if d.rst {
+	// bytes that were delivered before a reset stay readable (Linux); Reset(false) drops them
+	if d.rst && len(d.readable) == 0 {
 		n.S.Logf(e.key(), "read -> ECONNRESET")
 		return 0, opErr("read", syscall.ECONNRESET)
 	}
@@ -293,11 +296,17 @@ func (e *End) Write(p []byte) (int, error) {
 	for {
 		n.mu.Lock()
 		if e.closed {
+			if total == 0 {
+				e.FailedWrites++
+			}
 			n.mu.Unlock()
 			n.S.Logf(e.key(), "write -> closed")
 			return total, opErr("write", net.ErrClosed)
 		}
 		if d.readerGone || d.finQueued {
+			if total == 0 {
+				e.FailedWrites++
+			}
 			n.mu.Unlock()
 			n.S.Logf(e.key(), "write -> EPIPE")
 			n.S.Count("write_epipe")
